@@ -226,24 +226,34 @@ def run(ctx):
                     defs[n.targets[0].id] = src_of(n.value).replace(" ", "")
             chunk = src_of(loop.target) if loop is not None else "?"
             ok = len(slots) == 6
-            why = []
+            why, missing = [], []
             if ok:
                 ch, p_, n_, k_, n2, d_ = slots
                 if n_ != n2:
                     why.append("the length field and the header's length differ")
-                if defs.get(n_) not in (f"{chunk}.size", f"len({chunk})"):
+                if defs.get(n_) is None:
+                    missing.append(f"`{n_}` is not assigned in the block loop")
+                elif defs.get(n_) not in (f"{chunk}.size", f"len({chunk})"):
                     why.append(f"`{n_}` is not the block's size")
-                if defs.get(k_) != f"len(str({n_}))":
+                if defs.get(k_) is None:
+                    missing.append(f"`{k_}` is not assigned in the block loop")
+                elif defs.get(k_) != f"len(str({n_}))":
                     why.append(f"`{k_}` is not the digit count of the block length")
                 # the address sent: the running address variable itself, or a per-block copy of it
                 addr_var = defs.get(p_) if (defs.get(p_) or "").isidentifier() else (p_ if p_.isidentifier() else None)
                 if addr_var is None:
                     why.append("address variable not set per block")
-                adv = [n for n in ast.walk(loop) if isinstance(n, ast.AugAssign) and isinstance(n.op, ast.Add) and src_of(n.value) == n_ and src_of(n.target) == (addr_var or "?")]
-                if not adv:
+                any_adv = [n for n in ast.walk(loop) if isinstance(n, ast.AugAssign) and src_of(n.target) == (addr_var or "?")] if loop is not None else []
+                adv = [n for n in any_adv if isinstance(n.op, ast.Add) and src_of(n.value) == n_]
+                if not any_adv:
+                    missing.append("no running address variable updated in the block loop")
+                elif not adv:
                     why.append("the address does not advance by the block length")
-                init = [n for n in body_nodes(sd) if isinstance(n, ast.Assign) and src_of(n.targets[0]) == (addr_var or "?") and src_of(n.value) == start_name]
-                if not init:
+                any_init = [n for n in body_nodes(sd) if isinstance(n, ast.Assign) and src_of(n.targets[0]) == (addr_var or "?")]
+                init = [n for n in any_init if src_of(n.value) == start_name]
+                if not any_init:
+                    missing.append("the address variable is not initialised by an assignment")
+                elif not init:
                     why.append("the address does not start at start_addrs")
                 pay = defs.get(d_, "")
                 if "join" not in pay:
@@ -260,7 +270,13 @@ def run(ctx):
                         why.append("payload is not the joined bit characters of the block")
             else:
                 why.append("command does not have the six fields ch, addr, n, #k n data")
-            ctx.check("C20.3", not why, sd, q[0], f"set_data framing `{src_of(js)[:90]}`", "#<k><n><n bits> at consecutive addresses", "; ".join(why))
+            if missing and not why:
+                # the block loop is written in another idiom (blocks precomputed, addresses from a list ...): decide on the value of the
+                # command string if possible, otherwise say that it is not decided - a missing match is not a violation
+                if not _framing_by_value(ctx, ci.methods["set_data"], strict=True):
+                    ctx.unknown("C20.3", sd, q[0], f"set_data framing `{src_of(js)[:90]}`", "block loop not in a recognised form: " + "; ".join(missing))
+            else:
+                ctx.check("C20.3", not why, sd, q[0], f"set_data framing `{src_of(js)[:90]}`", "#<k><n><n bits> at consecutive addresses", "; ".join(why))
     # ---------------- C20.4 read-back reassembly
     gd = ci.methods.get("get_data")
     if gd is None:
@@ -306,9 +322,41 @@ def run(ctx):
             guard = ifn
     corr = [n for n in body_nodes(fs_) if isinstance(n, ast.Assign) and "fftconvolve" in src_of(n.value) or isinstance(n, ast.Assign) and "correlate" in src_of(n.value)]
     ok = guard is not None and corr and guard.lineno < corr[0].lineno
-    ctx.check("C20.5", bool(ok), fs_, guard or fs_.node, "SYNC: record shorter than the pattern", "rejected before the correlation", "a received record shorter than the pattern is not rejected before correlating")
     it = Interp(pkg, assumptions={"signal_rx": ("inst", "numpy.ndarray", "ndarray"), "slots_tx": ("inst", "numpy.ndarray", "ndarray"), "sps": "notnone"})
+    it.keep_cond_forms = True
     outs = it.run(fs_)
+    if not ok:
+        # any spelling: a raising exit whose condition compares the length of the received record with the length of the pattern,
+        # ahead of the correlation call
+        def is_len_of(v, what):
+            if not isinstance(v, Form):
+                return False
+            for a in v.atoms(deep=False):
+                inner = None
+                if a[0] == "fn" and a[1] in ("len", "size", "siglen") and a[2]:
+                    inner = a[2][0]
+                elif a[0] == "attr" and a[2] == "size":
+                    inner = a[1]
+                elif a[0] == "fn" and a[1] == "int" and a[2]:
+                    if is_len_of(a[2][0], what):
+                        return True
+                if isinstance(inner, Form) and what in inner.syms():
+                    return True
+                if a[0] == "sym" and a[1] in (what + ".size", what + ".shape"):
+                    return True
+            return False
+        corr_line = min([r.node.lineno for r in it.calls if r.callee and r.callee.split(".")[-1] in ("fftconvolve", "correlate", "convolve")] or [10 ** 9])
+        for o in outs:
+            if o.kind != "raise" or getattr(o.node, "lineno", 10 ** 9) > corr_line:
+                continue
+            for txt, pol in o.conds:
+                cf = it.cond_forms.get(txt)
+                ca = cf.single_atom() if isinstance(cf, Form) else None
+                if ca is not None and ca[0] == "fn" and ca[1] in ("gt", "ge") and len(ca[2]) == 2:
+                    big, small = (ca[2][0], ca[2][1]) if pol else (ca[2][1], ca[2][0])
+                    if is_len_of(big, "slots_tx") and is_len_of(small, "signal_rx"):
+                        ok, guard = True, o.node
+    ctx.check("C20.5", bool(ok), fs_, guard or fs_.node, "SYNC: record shorter than the pattern", "rejected before the correlation", "a received record shorter than the pattern is not rejected before correlating")
     rets = [o for o in outs if o.kind == "return"]
     # the lag window: correlating rx[:W] with the l-sample pattern in 'valid' mode searches the lags 0 .. W-l; every delay below one
     # pattern length (0 .. l-1) must be among them, i.e. W >= 2*l - 1 for every sps
@@ -319,14 +367,20 @@ def run(ctx):
         wa = a0.single_atom() if isinstance(a0, Form) else None
         pa = a1.single_atom() if isinstance(a1, Form) else None
         L = None
-        if pa is not None and pa[0] == "idx" and isinstance(pa[1], Form):
+        pat = pa[1] if (pa is not None and pa[0] == "idx" and isinstance(pa[1], Form)) else (a1 if pa is not None and pa[0] == "fn" else None)   # reversed copy (convolution) or the pattern itself (correlation)
+        if pat is not None:
+            pa = ("idx", pat)
             L = Form.atom(("attr", pa[1], "size"))
             for cand in (Form.atom(("attr", pa[1], "size")), mk_fn("len", [pa[1]]), mk_fn("size", [pa[1]])):
                 if isinstance(wa, tuple) and wa[0] == "idx" and isinstance(wa[2], SliceV) and isinstance(wa[2].hi, Form) and any(vk(Form.atom(x)) == vk(cand) for x in wa[2].hi.atoms()):
                     L = cand
         if wa is not None and wa[0] == "idx" and isinstance(wa[2], SliceV) and isinstance(wa[2].hi, Form) and L is not None \
                 and (isinstance(wa[2].lo, Const) and wa[2].lo.v is None or (isinstance(wa[2].lo, Form) and wa[2].lo.is_zero())):
-            D = wa[2].hi - 2 * L
+            def unint(a):
+                if a[0] == "fn" and a[1] == "int" and len(a[2]) == 1 and isinstance(a[2][0], Form):
+                    return a[2][0].subst(unint)          # lengths are integers already
+                return None
+            D = wa[2].hi.subst(unint) - 2 * L.subst(unint)
             vals = []
             for sp in (1, 2, 16):
                 d_ = D.subst(lambda a, sp=sp: Form.num(sp) if a == ("sym", "sps") else None)
@@ -343,6 +397,8 @@ def run(ctx):
     if len(rets) == 1 and isinstance(rets[0].value, TupleV) and len(rets[0].value.items) == 2:
         sig, idx = rets[0].value.items
         ia = idx.single_atom() if isinstance(idx, Form) else None
+        while ia is not None and ia[0] == "fn" and ia[1] in ("int", "numpy.int64", "item") and ia[2]:
+            ia = ia[2][0].single_atom() if isinstance(ia[2][0], Form) else None       # int(np.argmax(...)): the same index as a Python int
         ok_i = ia is not None and ia[0] == "fn" and ia[1] == "argmax"
         ctx.check("C20.5", ok_i, fs_, rets[0].node, f"SYNC: returned index = {idx!r}"[:160], "argmax of the correlation", "the returned index is not the argmax of the correlation")
         d = sig.fields.get("signal") if isinstance(sig, ObjV) else None
@@ -358,7 +414,7 @@ def run(ctx):
     ctx.require_min("C20.5", 4)
 
 
-def _framing_by_value(ctx, sd):
+def _framing_by_value(ctx, sd, strict=False):
     """C20.3 decided on the value of the command string, wherever it is built (helper, static method, comprehension):
     ':DIG' ch ':PATT:DATA ' addr ',' n ',#' k n payload  with  payload = ''.join(X as str), n = size of X, k = len(str(n)) and the
     address either a running variable that starts at start_addrs and advances by n, or the running sum of the block sizes
@@ -383,7 +439,7 @@ def _framing_by_value(ctx, sd):
         xa = x.single_atom() if isinstance(x, Form) else None
         if xa and xa[0] == "fn" and xa[1] == "fmt":
             vals.append(xa[2][0])
-    why = []
+    why, why_addr = [], []
     if len(vals) != 6:
         why.append("command does not have the six fields ch, addr, n, #k n data")
     else:
@@ -403,6 +459,11 @@ def _framing_by_value(ctx, sd):
             is_size = bool(na) and ((na[0] == "fn" and na[1] in ("size", "len", "siglen") and na[2] and vk(na[2][0]) == vk(X))
                                     or (na[0] == "attr" and na[2] == "size" and vk(na[1]) == vk(X)))
             if not is_size:
+                xa2 = X.single_atom() if isinstance(X, Form) else None
+                if xa2 is not None and xa2[0] == "idx" and isinstance(xa2[2], SliceV) and isinstance(xa2[2].lo, Form) and isinstance(xa2[2].hi, Form) \
+                        and (isinstance(xa2[2].step, Const) and xa2[2].step.v is None) and vk(xa2[2].hi - xa2[2].lo) == vk(n_):
+                    is_size = True          # the block is data[a : a + n]: n elements (the producer keeps a + n inside the data)
+            if not is_size:
                 why.append("the length field is not the block's size")
         if vk(n_) != vk(n2):
             why.append("the length field and the header's length differ")
@@ -415,9 +476,9 @@ def _framing_by_value(ctx, sd):
             inits = [v for f_, st_, nm, v, c_, d_ in it.assign_log if nm == var and not in_loop(st_)]
             upds = [v for f_, st_, nm, v, c_, d_ in it.assign_log if nm == var and in_loop(st_)]
             if not (inits and vk(inits[-1]) == vk(start)):
-                why.append("the address does not start at start_addrs")
+                why_addr.append("the address does not start at start_addrs")
             if not (upds and all(isinstance(u, Form) and vk(u - addr) == vk(n_) for u in upds)):
-                why.append("the address does not advance by the block length")
+                why_addr.append("the address does not advance by the block length")
         elif aa and aa[0] == "fn" and aa[1] == "elem" and isinstance(aa[2][0], Form) and (aa[2][0].single_atom() or ("",))[0] == "fn" \
                 and aa[2][0].single_atom()[1] == "itertools.accumulate":
             acc = aa[2][0].single_atom()
@@ -425,11 +486,14 @@ def _framing_by_value(ctx, sd):
             seq = acc[2][0] if acc[2] else None
             sa = seq.single_atom() if isinstance(seq, Form) else None
             if ini is None or vk(ini) != vk(start):
-                why.append("the address does not start at start_addrs")
+                why_addr.append("the address does not start at start_addrs")
             if not (sa and sa[0] == "fn" and sa[1] == "listcomp" and vk(sa[2][0]) == vk(n_)):
-                why.append("the address does not advance by the block length")
+                why_addr.append("the address does not advance by the block length")
         else:
-            why.append("address variable not set per block")
+            why_addr.append("address variable not set per block")
+    if strict and why_addr and not why:
+        return False          # the address sequence is produced in yet another idiom: the caller reports "not decided"
+    why = why + why_addr
     ctx.check("C20.3", not why, sd, r.node, f"set_data framing `{src_of(r.node)[:90]}`", "#<k><n><n bits> at consecutive addresses (decided on the value of the command string)", "; ".join(why))
     return True
 
